@@ -147,6 +147,37 @@ def scan():
     return sorted(set(res))
 
 
+LIFT_HOOKS = [("pump_component.py", "Pump"), ("compressor_component.py", "Compressor")]
+
+
+def lift_calls():
+    """every function / method name called inside the hooks that compute the pressure lift PL (Pump and Compressor
+    adaption_before_derivatives_hydraulic) and every comparison / boolean-mask store on the lift: exposes the density
+    source of the pump's volume flow and any clamp (maximum / where / clip) on the compressor lift"""
+    out = []
+    for fname, cls in LIFT_HOOKS:
+        tree = ast.parse(open(os.path.join(SRC, "component_models", fname)).read())
+        found = False
+        for st in tree.body:
+            if isinstance(st, ast.ClassDef) and st.name == cls:
+                for fn in st.body:
+                    if isinstance(fn, ast.FunctionDef) and fn.name == "adaption_before_derivatives_hydraulic":
+                        found = True
+                        for node in ast.walk(fn):
+                            if isinstance(node, ast.Call):
+                                n = _name(node.func)
+                                if n is None and isinstance(node.func, ast.Call) and _name(node.func.func):
+                                    n = "(" + _name(node.func.func) + ")()"       # itemgetter(...)(...)
+                                if n is None and isinstance(node.func, ast.Lambda):
+                                    n = "lambda"
+                                if n is None:
+                                    raise ScanError("%s.%s: call of an unnamed function" % (cls, fn.name))
+                                out.append((cls, n))
+        if not found:
+            raise ScanError("%s.adaption_before_derivatives_hydraulic not found" % cls)
+    return sorted(set(out))
+
+
 def generate():
     rows = scan()
     body = ";\n  ".join('("%s", "%s", "%s", "%s")' % r for r in rows)
@@ -154,7 +185,10 @@ def generate():
             "   (class, method, idx module | \"call\", column | callee): every pit column store of the hydraulic hooks and of\n"
             "   create_pit_node_entries; the scan fails closed on anything it cannot attribute to a column constant. *)\n"
             "From Coq Require Import String List.\nImport ListNotations.\nOpen Scope string_scope.\n"
-            "Definition hook_writes : list (string * string * string * string) := [\n  %s\n].\n" % body)
+            "Definition hook_writes : list (string * string * string * string) := [\n  %s\n].\n"
+            "(* functions called inside the hooks that compute the pressure lift PL *)\n"
+            "Definition lift_hook_calls : list (string * string) := [\n  %s\n].\n"
+            % (body, ";\n  ".join('("%s", "%s")' % r for r in lift_calls())))
 
 
 if __name__ == "__main__":
